@@ -1,11 +1,11 @@
-(* Proofs/C06_SegPush.v - what PathSegmentsMut::push / extend write, exactly, and the class F-C06-7.
-   extend() skips a segment only when it is literally "." or "..".  Every other segment goes through
-   parse_path in the PathSegmentSetter context, whose input iterator drops TAB / LF / CR: a segment
-   whose TAB/LF/CR-free text is "." or ".." (".<TAB>.", "<LF>.") is then read as a dot segment - ".."
-   pops the last segment of the path.  Outside that class (known_c06_7, computable) the segment is
-   appended verbatim: '/' (unless the path is exactly "/") followed by the percent-encoding of the
-   TAB/LF/CR-free text with the PATH_SEGMENT set of the scheme; '%' is in that set, so no "%2e" spelling
-   can come out as a dot segment.  Scheme types other than file (file adds drive-letter rewriting). *)
+(* Proofs/C06_SegPush.v - what PathSegmentsMut::push / extend write, exactly (finding F-C06-7 is FIXED).
+   extend() skips a segment when its TAB/LF/CR-free text - the text parse_path will see, its input
+   iterator drops TAB / LF / CR - is "." or ".." (Setters.psm_skips).  Before the repair the test was made
+   on the raw argument: ".<TAB>." was not skipped, was read as ".." by parse_path and POPPED the last
+   segment (F-C06-7).  Now EVERY segment that is not skipped is appended verbatim: '/' (unless the path is
+   exactly "/") followed by the percent-encoding of the TAB/LF/CR-free text with the PATH_SEGMENT set of
+   the scheme; '%' is in that set, so no "%2e" spelling can come out as a dot segment.
+   Scheme types other than file (file adds drive-letter rewriting); file with a path longer than "/" below. *)
 From RU Require Import Base.Prelude Base.Utf8 Base.Utf8Facts Model.AsciiSet Gen.Tables Model.PercentEncoding
   Model.HostT Model.UrlRecord Model.Parser Model.Setters Model.WF
   Proofs.C14_Set Proofs.C14_Enc Proofs.C14_Views Proofs.C20_Plain
@@ -14,10 +14,10 @@ From RU Require Import Base.Prelude Base.Utf8 Base.Utf8Facts Model.AsciiSet Gen.
 
 (* ---------- the class ---------- *)
 Definition strip_tnl (s : list N) : list N := filter not_tnl s.
-(* the test of extend(): matches!(segment, "." | "..") *)
+(* a text that is "." or ".."; the test of extend() is this test on the TAB/LF/CR-free segment *)
 Definition seg_skipped (s : list N) : bool := list_eqb s [46] || list_eqb s [46; 46].
-(* F-C06-7: not skipped by extend, but "." / ".." once TAB / LF / CR are gone *)
-Definition known_c06_7 (s : list N) : bool := negb (seg_skipped s) && seg_skipped (strip_tnl s).
+Lemma psm_skips_strip seg : psm_skips seg = seg_skipped (strip_tnl seg).
+Proof. reflexivity. Qed.
 
 Definition seg_set (st : scheme_type) : aset := path_set CPathSegmentSetter st.
 (* the text push writes for a segment *)
@@ -171,7 +171,7 @@ Qed.
 
 (* ---------- the editor operations on the path text ---------- *)
 Definition push_text (st : scheme_type) (P seg : list N) : list N :=
-  if seg_skipped seg then P
+  if seg_skipped (strip_tnl seg) then P
   else (if (1 <? nlen P) || (nlen P =? 0) then P ++ [47] else P) ++ seg_text st seg.
 Definition extend_text (st : scheme_type) (P : list N) (segs : list (list N)) : list N := fold_left (push_text st) segs P.
 Definition clear_text (P : list N) : list N := nfirstn 1 P.
@@ -190,29 +190,19 @@ Definition op_text (st : scheme_type) (P : list N) (o : psm_op) : list N :=
   end.
 Definition session_text (st : scheme_type) (P : list N) (ops : list psm_op) : list N := fold_left (op_text st) ops P.
 
-(* arguments of push / extend outside F-C06-7 *)
-Definition psm_op_plain (o : psm_op) : Prop :=
-  match o with
-  | PPush s => known_c06_7 s = false
-  | PExtend ss => Forall (fun s => known_c06_7 s = false) ss
-  | _ => True
-  end.
-
 Section Exact.
 Variables (dbg : bool) (st : scheme_type) (s0 : list N) (ps : N).
 Hypothesis Hps : nlen s0 = ps.
 Hypothesis Hf : st_is_file st = false.
 
-Lemma extend_loop_exact segs : forall P, Forall usv_list segs -> Forall (fun s => known_c06_7 s = false) segs ->
+Lemma extend_loop_exact segs : forall P, Forall usv_list segs ->
   psm_extend_loop dbg st ps (s0 ++ P) segs = Some (s0 ++ extend_text st P segs).
 Proof.
-  induction segs as [|seg rest IH]; intros P Hu Hk; cbn [psm_extend_loop extend_text fold_left]; [reflexivity|].
+  induction segs as [|seg rest IH]; intros P Hu; cbn [psm_extend_loop extend_text fold_left]; [reflexivity|].
   pose proof (Forall_inv Hu) as Hu1. pose proof (Forall_inv_tail Hu) as Hu2.
-  pose proof (Forall_inv Hk) as Hk1. pose proof (Forall_inv_tail Hk) as Hk2. cbv beta in Hk1.
-  unfold push_text at 2. fold (seg_skipped seg). destruct (seg_skipped seg) eqn:Esk.
+  unfold push_text at 2. rewrite psm_skips_strip. destruct (seg_skipped (strip_tnl seg)) eqn:Hk1.
   - apply IH; assumption.
-  - unfold known_c06_7 in Hk1. rewrite Esk in Hk1. cbn [negb andb] in Hk1.
-    replace ((ps + 1 <? nlen (s0 ++ P)) || (nlen (s0 ++ P) =? ps)) with ((1 <? nlen P) || (nlen P =? 0))
+  - replace ((ps + 1 <? nlen (s0 ++ P)) || (nlen (s0 ++ P) =? ps)) with ((1 <? nlen P) || (nlen P =? 0))
       by (rewrite nlen_app, Hps; lia).
     replace (if (1 <? nlen P) || (nlen P =? 0) then (s0 ++ P) ++ [47] else s0 ++ P)
       with (s0 ++ (if (1 <? nlen P) || (nlen P =? 0) then P ++ [47] else P))
@@ -233,9 +223,9 @@ Proof. reflexivity. Qed.
 Lemma psm_with_at P x : psm_with (psm_at P) (s0 ++ x) = psm_at x.
 Proof. reflexivity. Qed.
 
-Lemma apply_exact o P : psm_op_usv o -> psm_op_plain o -> psm_apply dbg (psm_at P) o = Some (psm_at (op_text st P o)).
+Lemma apply_exact o P : psm_op_usv o -> psm_apply dbg (psm_at P) o = Some (psm_at (op_text st P o)).
 Proof.
-  intros Hu Hk. destruct o; cbn [psm_apply op_text].
+  intros Hu. destruct o; cbn [psm_apply op_text].
   - f_equal. unfold psm_clear. cbn [psm_at psm_url ser set_ser after_first_slash]. unfold truncate.
     rewrite nfirstn_app_ge by lia. replace (ps + 1 - nlen s0) with 1 by lia. apply psm_with_at.
   - f_equal. unfold psm_pop_if_empty, pop_if_empty_text. cbn [psm_at psm_url ser set_ser after_first_slash].
@@ -257,10 +247,10 @@ Proof.
     rewrite extend_loop_exact by assumption. cbn [bindo]. reflexivity.
 Qed.
 
-Lemma run_exact ops : forall P, Forall psm_op_usv ops -> Forall psm_op_plain ops ->
+Lemma run_exact ops : forall P, Forall psm_op_usv ops ->
   psm_run dbg (psm_at P) ops = Some (psm_at (session_text st P ops)).
 Proof.
-  induction ops as [|o rest IH]; intros P Hu Hk; cbn [psm_run session_text fold_left]; [reflexivity|].
+  induction ops as [|o rest IH]; intros P Hu; cbn [psm_run session_text fold_left]; [reflexivity|].
   rewrite apply_exact by (eapply Forall_inv; eassumption). cbn [bindo].
   apply IH; eapply Forall_inv_tail; eassumption.
 Qed.
@@ -272,10 +262,10 @@ Definition st_of (u : url) : scheme_type := scheme_type_of (nfirstn (scheme_end 
 
 Theorem path_segments_session_exact dbg u ops u' : wf_b u = true ->
   byte_eqb (ser u) (scheme_end u + 1) 47 = true -> st_is_file (st_of u) = false ->
-  Forall psm_op_usv ops -> Forall psm_op_plain ops -> path_segments_session dbg u ops = Some (u', SOk) ->
+  Forall psm_op_usv ops -> path_segments_session dbg u ops = Some (u', SOk) ->
   u' = with_path u (session_text (st_of u) (path_bytes u) ops).
 Proof.
-  intros W Hsl Hnf Hops Hpl H.
+  intros W Hsl Hnf Hops H.
   destruct (wf_ps_le_path_end u W) as [B5 B6]. pose proof (wf_se_lt_ps u W) as B0.
   destruct (wf_scheme_facts u W) as (Hse & Hc & Hlt).
   set (pe := path_end u) in *. set (ps := path_start u) in *. set (st := st_of u) in *.
@@ -302,7 +292,7 @@ Proof.
   replace (nlen (s0 ++ path_bytes u)) with pe in H by (rewrite <- Ex0; symmetry; exact Lx0).
   change (mkPsm (set_ser u (s0 ++ path_bytes u)) (ps + 1) (nskipn pe (ser u)) pe)
     with (psm_at s0 ps u (nskipn pe (ser u)) pe (path_bytes u)) in H.
-  rewrite (run_exact dbg st s0 ps Ls0 Hnf u (nskipn pe (ser u)) pe eq_refl Hst ops (path_bytes u) Hops Hpl) in H.
+  rewrite (run_exact dbg st s0 ps Ls0 Hnf u (nskipn pe (ser u)) pe eq_refl Hst ops (path_bytes u) Hops) in H.
   cbn [bindo] in H.
   set (P := session_text st (path_bytes u) ops) in *.
   unfold psm_close, psm_at in H. cbn [psm_url psm_old_pos psm_after_path] in H.
@@ -316,7 +306,8 @@ Proof.
   inversion H. unfold with_path. fold pe ps s0. rewrite nlen_app, Ls0. rewrite <- app_assoc. reflexivity.
 Qed.
 
-(* ---------- inside the class the segment is NOT appended: the class is exact ---------- *)
+(* ---------- why the skip test must be made on the TAB/LF/CR-free text: parse_path does NOT append a segment
+   whose TAB/LF/CR-free text is "." or ".." (this is what went wrong in F-C06-7 before the repair) ---------- *)
 Lemma nlen_nfirstn_le_len n l : nlen (nfirstn n l) <= nlen l.
 Proof. unfold nlen, nfirstn. rewrite firstn_length. lia. Qed.
 
@@ -386,32 +377,22 @@ Proof.
     apply (f_equal nlen) in E. rewrite nlen_app in E. cbn in E. lia.
 Qed.
 
-(* push(seg) for a segment that extend does not skip: appended verbatim IFF outside the class *)
-Theorem push_class_exact dbg st s0 ps P seg s' : nlen s0 = ps -> st_is_file st = false -> usv_list seg ->
-  psm_extend_loop dbg st ps (s0 ++ P) [seg] = Some s' ->
-  (s' = s0 ++ push_text st P seg <-> known_c06_7 seg = false).
+(* push(seg), EVERY &str segment: push_text, exactly (the former class F-C06-7 is empty) *)
+Theorem push_exact dbg st s0 ps P seg s' : nlen s0 = ps -> st_is_file st = false -> usv_list seg ->
+  psm_extend_loop dbg st ps (s0 ++ P) [seg] = Some s' -> s' = s0 ++ push_text st P seg.
 Proof.
-  intros Hps Hf Hu H. split.
-  - intros E. destruct (known_c06_7 seg) eqn:K; [exfalso|reflexivity].
-    unfold known_c06_7 in K. apply andb_true_iff in K. destruct K as [K1 K2]. apply negb_true_iff in K1.
-    cbn [psm_extend_loop] in H. fold (seg_skipped seg) in H. rewrite K1 in H.
-    unfold push_text in E. rewrite K1 in E.
-    replace ((ps + 1 <? nlen (s0 ++ P)) || (nlen (s0 ++ P) =? ps)) with ((1 <? nlen P) || (nlen P =? 0)) in H
-      by (rewrite nlen_app, Hps; lia).
-    set (b := (1 <? nlen P) || (nlen P =? 0)) in *.
-    replace (if b then (s0 ++ P) ++ [47] else s0 ++ P) with (s0 ++ (if b then P ++ [47] else P)) in H
-      by (destruct b; [rewrite app_assoc|]; reflexivity).
-    destruct (parse_path dbg CPathSegmentSetter st true ps _ seg) as [[[s2 hh] rem]| |] eqn:Epp; cbn [unpres bindo] in H; try discriminate.
-    inversion H; subst s2. apply (parse_path_segment_class dbg st ps _ seg s' hh rem Hf Hu K2) in Epp.
-    apply Epp. rewrite E. rewrite app_assoc. reflexivity.
-  - intros K. rewrite (extend_loop_exact dbg st s0 ps Hps Hf [seg] P) in H by (repeat constructor; assumption).
-    inversion H. reflexivity.
+  intros Hps Hf Hu H. rewrite (extend_loop_exact dbg st s0 ps Hps Hf [seg] P) in H by (repeat constructor; assumption).
+  inversion H. reflexivity.
 Qed.
+
+(* a segment is skipped - the path text is left alone - exactly when the parser would read it as a dot segment *)
+Lemma push_text_skipped st P seg : seg_skipped (strip_tnl seg) = true -> push_text st P seg = P.
+Proof. intros H. unfold push_text. rewrite H. reflexivity. Qed.
 
 (* the old path is kept as a prefix by push / extend outside the class: no existing segment is touched *)
 Lemma push_text_prefix st P seg : exists t, push_text st P seg = P ++ t.
 Proof.
-  unfold push_text. destruct (seg_skipped seg); [exists []; rewrite app_nil_r; reflexivity|].
+  unfold push_text. destruct (seg_skipped (strip_tnl seg)); [exists []; rewrite app_nil_r; reflexivity|].
   destruct ((1 <? nlen P) || (nlen P =? 0)); [rewrite <- app_assoc|]; eexists; reflexivity.
 Qed.
 Lemma extend_text_prefix st segs : forall P, exists t, extend_text st P segs = P ++ t.
@@ -424,31 +405,32 @@ Qed.
 (* ---------- witnesses ---------- *)
 (* http://h/a/b *)
 Definition w7_url : url := mkUrl [104;116;116;112;58;47;47;104;47;97;47;98] 4 7 7 8 HI_Domain None 8 None None.
-(* http://h/a/ *)
-Definition w7_popped : url := mkUrl [104;116;116;112;58;47;47;104;47;97;47] 4 7 7 8 HI_Domain None 8 None None.
 
-(* push(".<TAB>.") removes the segment "b"; push("..") is skipped; push(".<LF>") appends an empty segment
-   where push(".") is skipped; the "%2e" spellings are appended with the '%' escaped *)
-Lemma c06_7_witness :
-  wf_b w7_url = true /\ known_c06_7 [46; 9; 46] = true /\ known_c06_7 [46; 10] = true
-  /\ known_c06_7 [46; 46] = false /\ known_c06_7 [37; 50; 101; 9; 46] = false
-  /\ (forall dbg, path_segments_session dbg w7_url [PPush [46; 9; 46]] = Some (w7_popped, SOk))
+(* the regression of F-C06-7: push(".<TAB>.") and push(".<LF>") are skipped like push("..") and push(".")
+   (before the repair the first POPPED the segment "b" and the second appended an empty segment);
+   the "%2e" spellings are appended with the '%' escaped *)
+Lemma c06_7_fixed_witness :
+  wf_b w7_url = true /\ psm_skips [46; 9; 46] = true /\ psm_skips [46; 10] = true /\ psm_skips [13; 46; 9; 46; 10] = true
+  /\ psm_skips [46; 46] = true /\ psm_skips [46] = true /\ psm_skips [37; 50; 101; 9; 46] = false
+  /\ psm_skips [46; 9; 46; 46] = false /\ psm_skips [9] = false
+  /\ (forall dbg, path_segments_session dbg w7_url [PPush [46; 9; 46]] = Some (w7_url, SOk))
   /\ (forall dbg, path_segments_session dbg w7_url [PPush [46; 46]] = Some (w7_url, SOk))
-  /\ (forall dbg, path_segments_session dbg w7_url [PPush [46; 10]] = Some (with_path w7_url [47;97;47;98;47], SOk))
+  /\ (forall dbg, path_segments_session dbg w7_url [PPush [46; 10]] = Some (w7_url, SOk))
+  /\ (forall dbg, path_segments_session dbg w7_url [PPush [46]] = Some (w7_url, SOk))
+  /\ (forall dbg, path_segments_session dbg w7_url [PExtend [[46; 9; 46]; [120]; [10; 46]]]
+                  = Some (with_path w7_url [47;97;47;98;47;120], SOk))
   /\ (forall dbg, path_segments_session dbg w7_url [PPush [37; 50; 101; 9; 46]]
                   = Some (with_path w7_url [47;97;47;98;47;37;50;53;50;101;46], SOk))
-  /\ path w7_popped = Some [47; 97; 47]
-  /\ w7_popped <> with_path w7_url (push_text (st_of w7_url) (path_bytes w7_url) [46; 9; 46]).
+  /\ push_text (st_of w7_url) (path_bytes w7_url) [46; 9; 46] = path_bytes w7_url
+  /\ path w7_url = Some [47; 97; 47; 98].
 Proof.
   repeat split; try (vm_compute; reflexivity); try (intros []; vm_compute; reflexivity).
-  vm_compute. discriminate.
 Qed.
 
 (* the hypotheses of path_segments_session_exact are met by a non-trivial session *)
 Example session_exact_example :
   wf_b w7_url = true /\ byte_eqb (ser w7_url) (scheme_end w7_url + 1) 47 = true /\ st_is_file (st_of w7_url) = false
   /\ Forall psm_op_usv [PPush [120; 9; 121]; PExtend [[46; 46]; [99; 47; 37]; []]; PPop; PPush [233]]
-  /\ Forall psm_op_plain [PPush [120; 9; 121]; PExtend [[46; 46]; [99; 47; 37]; []]; PPop; PPush [233]]
   /\ path_segments_session true w7_url [PPush [120; 9; 121]; PExtend [[46; 46]; [99; 47; 37]; []]; PPop; PPush [233]]
      = Some (with_path w7_url [47;97;47;98;47;120;121;47;99;37;50;70;37;50;53;47;37;67;51;37;65;57], SOk)
   /\ session_text (st_of w7_url) (path_bytes w7_url) [PPush [120; 9; 121]; PExtend [[46; 46]; [99; 47; 37]; []]; PPop; PPush [233]]
@@ -456,7 +438,7 @@ Example session_exact_example :
 Proof.
   split; [vm_compute; reflexivity|]. split; [vm_compute; reflexivity|]. split; [vm_compute; reflexivity|].
   split; [repeat constructor; unfold is_usv; lia|].
-  split; [repeat constructor|]. split; vm_compute; reflexivity.
+  split; vm_compute; reflexivity.
 Qed.
 
 Lemma path_text_is_path u : wf_b u = true -> path u = Some (path_bytes u).
@@ -466,7 +448,7 @@ Proof. intros W. rewrite (path_eval u W). reflexivity. Qed.
 (* On a file URL parse_path also (1) inserts a '/' behind a normalized drive letter that is the whole path so far,
    (2) rewrites a drive-letter first segment "C|" to "C:", (3) collapses leading slashes of the path.  None of them
    can happen when the path before the push is longer than one byte and does not start with "//" (true of every parsed
-   file URL): then push is exact outside the same class known_c06_7.  On the root path "/" the drive-letter quirks
+   file URL): then push is exact for every segment.  On the root path "/" the drive-letter quirks
    apply (file:/// push("C|") gives file:///C:, push("C:<TAB>x") gives file:///C:/x): not covered. *)
 Definition file_path_inv (P : list N) : Prop := exists c r, P = 47 :: c :: r /\ c <> 47.
 
@@ -549,39 +531,17 @@ Proof.
   destruct (N.le_gt_cases ps (nlen s)); [rewrite nlen_nfirstn by lia; lia | lia].
 Qed.
 
-(* on a file URL whose path is longer than "/" and not "//"-led: appended verbatim IFF outside the class *)
-Theorem push_class_exact_file dbg s0 ps P seg s' : nlen s0 = ps -> 1 < nlen P -> file_path_inv P -> usv_list seg ->
-  psm_extend_loop dbg STFile ps (s0 ++ P) [seg] = Some s' ->
-  (s' = s0 ++ push_text STFile P seg <-> known_c06_7 seg = false).
+(* on a file URL whose path is longer than "/" and not "//"-led: push_text, exactly, for every &str segment *)
+Theorem push_exact_file dbg s0 ps P seg s' : nlen s0 = ps -> 1 < nlen P -> file_path_inv P -> usv_list seg ->
+  psm_extend_loop dbg STFile ps (s0 ++ P) [seg] = Some s' -> s' = s0 ++ push_text STFile P seg.
 Proof.
-  intros Hps HP Hinv Hu H. cbn [psm_extend_loop] in H. fold (seg_skipped seg) in H.
-  unfold push_text. unfold known_c06_7. destruct (seg_skipped seg) eqn:Esk; cbn [negb andb].
-  - inversion H; subst. split; reflexivity.
+  intros Hps HP Hinv Hu H. cbn [psm_extend_loop] in H. rewrite psm_skips_strip in H.
+  unfold push_text. destruct (seg_skipped (strip_tnl seg)) eqn:Ek.
+  - inversion H; subst. reflexivity.
   - replace ((ps + 1 <? nlen (s0 ++ P)) || (nlen (s0 ++ P) =? ps)) with true in H
       by (rewrite nlen_app, Hps; symmetry; apply orb_true_iff; left; apply N.ltb_lt; lia).
     replace ((1 <? nlen P) || (nlen P =? 0)) with true by (symmetry; apply orb_true_iff; left; apply N.ltb_lt; lia).
-    rewrite <- app_assoc in H. destruct (seg_skipped (strip_tnl seg)) eqn:Ek.
-    + split; [|discriminate]. intros E. exfalso.
-      destruct (parse_path dbg CPathSegmentSetter STFile true ps (s0 ++ P ++ [47]) seg) as [[[s2 hh] rem]| |] eqn:Epp;
-        cbn [unpres bindo] in H; try discriminate.
-      inversion H; subst s2. clear H. unfold parse_path in Epp.
-      rewrite (ppl_seg_file dbg ps seg _ _ [] true) in Epp by (try exact Hu; intros chunk; apply no_nwdl_behind; assumption).
-      cbn [rev app] in Epp. fold (seg_text STFile seg) in Epp.
-      set (x := s0 ++ P ++ [47]) in *.
-      assert (nlen (s0 ++ (P ++ [47]) ++ seg_text STFile seg) = nlen x + nlen (seg_text STFile seg)) as Lx
-        by (unfold x; rewrite !nlen_app; lia).
-      apply (f_equal nlen) in E. rewrite Lx in E. clear Lx.
-      unfold seg_skipped in Ek. apply orb_true_iff in Ek. destruct Ek as [Ek|Ek]; apply list_eqb_spec in Ek.
-      * rewrite (seg_text_dot STFile seg Ek) in *. rewrite finish_single_dot in Epp. cbn [pbind] in Epp.
-        assert (ends_with_byte 47 x = true) as Hex.
-        { unfold x. rewrite app_assoc. unfold ends_with_byte. rewrite rev_app_distr. reflexivity. }
-        rewrite Hex in Epp. inversion Epp; subst s'.
-        destruct Hinv as (c & r & EP & Hc). unfold x in E. rewrite EP in E. cbn [app] in E.
-        rewrite (fixup_id_file s0 ps c _ Hps Hc) in E. change (nlen [46]) with 1 in E. lia.
-      * rewrite (seg_text_dotdot STFile seg Ek) in *.
-        destruct (finish_segment dbg STFile ps (x ++ [46; 46]) (nlen x) false true) as [[s2 hh2]| |] eqn:Ef; cbn [pbind] in Epp; try discriminate.
-        apply finish_double_dot_len in Ef. inversion Epp; subst s'. pose proof (fixup_len STFile ps s2).
-        change (nlen [46; 46]) with 2 in E. lia.
-    + rewrite (parse_path_segment_exact_file dbg ps s0 P seg Hps HP Hinv Hu Ek) in H. cbn [unpres bindo] in H.
-      injection H as H1. subst s'. split; [intros _; reflexivity | intros _; rewrite <- !app_assoc; reflexivity].
+    rewrite <- app_assoc in H.
+    rewrite (parse_path_segment_exact_file dbg ps s0 P seg Hps HP Hinv Hu Ek) in H. cbn [unpres bindo] in H.
+    injection H as H1. subst s'. rewrite <- !app_assoc. reflexivity.
 Qed.
